@@ -308,15 +308,55 @@ Lemma s3_classes :
   classes_mapped_to SDict K_ChunkNotFound = [B_KeyError; B_IndexError; K_ChunkNotFound; K_S3ObjectNotFound; K_S3ServerGlitch].
 Proof. repeat split; vm_compute; reflexivity. Qed.
 
-(* FINDING C08-F5c (open): the read path of the NPY store reports NO failure as StoreUnavailable; a store-level OS error
-   (EACCES on the chunk directory, ENOTDIR, EISDIR, EIO) is absorbed as a missing chunk: zero-filled and flagged
-   data_lost instead of failing the load.  "Unreachable store => StoreUnavailable" holds for the NPY store only at
-   construction (missing directory), not per read. *)
-Lemma npy_read_unavailable_refuted :
-  classes_mapped_to SNpy K_StoreUnavailable = [] /\
-  exists e, isinst e B_OSError = true /\ e <> B_FileNotFoundError /\
-            vfw_getter AOther SNpy (LRaise e) = Ret Placeholder /\ vfw_getter AFlags SNpy (LRaise e) = Ret DefaultFill.
-Proof. split; [vm_compute; reflexivity|]. exists B_PermissionError. repeat split; try reflexivity. discriminate. Qed.
+(* C08-F5c (repaired): the read path of the NPY store reports every OS error other than "no such file" (EACCES on the
+   chunk directory, ENOTDIR, EISDIR, EIO, a connection / timeout error of a network file system ...) as
+   StoreUnavailable, so an unreadable store fails the load instead of being zero-filled and flagged data_lost; only
+   FileNotFoundError is a missing chunk. *)
+Lemma npy_oserrors_unavailable :
+  forallb (fun e => implb (isinst e B_OSError && negb (isinst e B_FileNotFoundError))
+                          (isinst (standard_errors (error_map SNpy) e) K_StoreUnavailable)) all_exn = true /\
+  standard_errors (error_map SNpy) B_FileNotFoundError = K_ChunkNotFound /\
+  classes_mapped_to SNpy K_ChunkNotFound =
+    [B_FileNotFoundError; B_EOFError; B_ValueError; B_UnicodeError; B_UnicodeDecodeError; Z_BadZipFile; K_ChunkNotFound;
+     K_BadChunk; K_S3ObjectNotFound; K_S3ServerGlitch; J_JSONDecodeError; U_LocationValueError; U_LocationParseError;
+     E_MessageDefect; U_URLSchemeUnknown; U_ProxySchemeUnknown; U_ProxySchemeUnsupported; U_ResponseNotChunked;
+     T_TokenError].
+Proof. repeat split; vm_compute; reflexivity. Qed.
+
+Lemma npy_oserror_is_unavailable : forall e, isinst e B_OSError = true -> isinst e B_FileNotFoundError = false ->
+  isinst (standard_errors (error_map SNpy) e) K_StoreUnavailable = true.
+Proof.
+  intros e H1 H2. destruct npy_oserrors_unavailable as [A _]. rewrite forallb_forall in A.
+  specialize (A e (all_exn_complete e)). rewrite H1, H2 in A. exact A.
+Qed.
+
+(* ... and never answers it with filler: both getters of vis_flags_weights re-raise the StoreUnavailable *)
+Lemma npy_oserror_not_filled : forall k e, isinst e B_OSError = true -> isinst e B_FileNotFoundError = false ->
+  vfw_getter k SNpy (LRaise e) = Raise (standard_errors (error_map SNpy) e).
+Proof.
+  intros k e H1 H2. pose proof (npy_oserror_is_unavailable e H1 H2) as U.
+  assert (G : get_chunk SNpy (LRaise e) = Raise (standard_errors (error_map SNpy) e)) by reflexivity.
+  destruct (bad_or_unavailable_never_filled _ _ _ G (or_intror (or_introl U))) as [A B].
+  destruct vfw_getters as [G1 G2]. destruct k; [rewrite G1|rewrite G2]; assumption.
+Qed.
+
+Lemma npy_unreadable_store_fails_load ds a id e : d_store ds = SNpy -> In (a, id) (needed ds) ->
+  d_low ds a id = LRaise e -> isinst e B_OSError = true -> isinst e B_FileNotFoundError = false ->
+  exists u, isinst u K_StoreUnavailable = true /\ In u (load_errors ds) /\ load_errors ds <> [] /\
+            chunk_missing ds a id = false.
+Proof.
+  intros HS Hin Hlo H1 H2. pose proof (npy_oserror_is_unavailable e H1 H2) as U. rewrite <- HS in U.
+  destruct (unavailable_fails_load ds a id e Hin Hlo U) as [X [Y Z]].
+  exists (standard_errors (error_map (d_store ds)) e). auto.
+Qed.
+
+(* before the repair (map literal of the unrepaired source, Proofs/StoreErrP.v): NOTHING was reported as
+   StoreUnavailable and e.g. PermissionError was a ChunkNotFound, i.e. filler *)
+Lemma npy_read_unavailable_refuted_before_fix :
+  filter (fun e => isinst (standard_errors npy_map_before_f5b e) K_StoreUnavailable) all_exn = [] /\
+  standard_errors npy_map_before_f5b B_PermissionError = K_ChunkNotFound /\
+  isinst B_PermissionError B_OSError = true /\ isinst B_PermissionError B_FileNotFoundError = false.
+Proof. repeat split; vm_compute; reflexivity. Qed.
 
 (* ---------- the composed statement for a store of chunk files ---------- *)
 Section FileStore.
